@@ -25,6 +25,9 @@ func C16(ctx *core.Ctx, r *core.Report) {
 	c16SyntaxErrors(ctx, r)
 	c16WhereScope(ctx, r)
 	c16WhereBaseByIdentity(ctx, r)
+	c16LiteralExact(ctx, r)
+	// a where/filter registered on one selection must not replace a sibling's (C07's registry rules)
+	c07Accumulate(ctx, r)
 	// a comparison holds exactly when it holds mathematically: the sign Compare returns (C17's rule, on the same methods)
 	if impls, _ := comparableImpls(ctx, r); len(impls) > 0 {
 		c17CompareOrder(ctx, r, impls)
